@@ -74,7 +74,9 @@ Inductive case :=
 (** [a.encode()] and [ZcashAddress::try_from_encoded] of the result *)
 | CEnc (a : addr) (t : list hg_entry) (o : sres) (back : option ares)
 (** [ZcashAddress::try_from_encoded(s)]; when Ok a, [re] = [a.encode()] *)
-| CParse (s : list N) (t : list hg_entry) (o : ares) (re : option sres).
+| CParse (s : list N) (t : list hg_entry) (o : ares) (re : option sres)
+(** [a.convert_if_network(expected)] observed through a recording [TryFromAddress] *)
+| CConv (a : addr) (expected : net) (o : outcome addr (net * net)).
 
 Definition opt_bres_eqb := option_eqb bres_eqb.
 
@@ -117,6 +119,7 @@ Definition run_case (c : case) : bool :=
       let H := H_of t in let G := G_of t in
       let r := parse_address H G s in
       ares_eqb r o && option_eqb sres_eqb (on_ok r (encode_address H G)) re
+  | CConv a e o => outcome_eqb addr_eqb (pair_eqb net_eqb net_eqb) (convert_if_network a e) o
   end.
 
 Definition not_panic {A E} (o : outcome A E) : bool := match o with Panic => false | _ => true end.
@@ -180,6 +183,14 @@ Definition prop_case (c : case) : bool :=
       | Err _ => true
       | Panic => false
       end
+  | CConv a e o =>
+      (* accepted exactly within the documented exception; what is handed on rebuilds to the very
+         same address (so it re-encodes to the same string); the error names both networks *)
+      match o with
+      | Ok a' => spec_convertible a e && net_eqb (addr_net a') e && addr_eqb (spec_rebuild a') a
+      | Err (x, y) => negb (spec_convertible a e) && net_eqb x e && net_eqb y (addr_net a)
+      | Panic => false
+      end
   end.
 
 (** known finding 1: [Encoding::encode] panics on a container accepted by [try_from_items] whose
@@ -220,4 +231,5 @@ Definition tag_case (c : case) : N :=
              | Err PInvEnc => 10 | Err PNotZcash => 11 | Err (PUnified e) => 20 + uerr_tag e
              | Panic => 99
              end
+  | CConv a e o => 1100 + 10 * addr_tag a + (if net_eqb (addr_net a) e then 0 else 2) + out_tag o (fun _ => 1)
   end.
